@@ -174,6 +174,36 @@ func clStoreOwnership(c *Ctx) {
 		}
 		c.Check(okH && okT, fn, w.in, cnt.in(fn, "replacing the store frees the old store's head and tail (user-managed memory)"),
 			"the empty store allocated by NewWithConfig is overwritten without releasing its two sentinel nodes: every restore leaks two blocks")
+		// ... before anything can fail: once the field is overwritten nobody else can reach the old sentinels
+		if okH && okT {
+			for _, f := range p.CallSites(fn, freeNode) {
+				recv := strip(callOf(f).Args[0])
+				if fl, _ := loadedField(recv); fl != fStore || !fi.Dominates(recv.(ssa.Instruction), w.in) || !fi.Dominates(w.in, f) {
+					continue
+				}
+				// the useMemoryMgmt test that guards this free must be passed on every path from the overwrite to a return
+				var test ssa.Instruction
+				for _, b := range fn.Blocks {
+					ifi, ok := b.Instrs[len(b.Instrs)-1].(*ssa.If)
+					if !ok || !fi.Dominates(ifi, f) || !fi.Dominates(w.in, ifi) {
+						continue
+					}
+					nf := normFact(ifi.Cond, true)
+					if loadsField(fUseMM)(nf.V) {
+						test = ifi
+					}
+				}
+				if test == nil {
+					continue
+				}
+				esc := fi.PathAvoiding(w.in, func(x ssa.Instruction) bool {
+					r, ok := x.(*ssa.Return)
+					return ok && r.Block() != fn.Recover
+				}, func(x ssa.Instruction) bool { return x == test })
+				c.Check(esc == nil, fn, f, cnt.in(fn, "old sentinels are freed before any return that follows the overwrite"),
+					"an error return between the store swap and the release of the old head/tail (e.g. a failing delta phase) leaks the two sentinel blocks of the replaced store: Close only walks the new store")
+			}
+		}
 	}
 	// error returns after the builder exists
 	nb := p.Func("skiplist", "", "NewBuilderWithConfig")
